@@ -2,10 +2,12 @@
 (reachability, filters, pattern matching written from docs/), workspace writer and CLI runner."""
 import json, os, subprocess, time
 
-PKGS = ["", "a", "a/b", "b", "ab", "a/b/c"]
-NAMES = ["lib", "app", "x_test", "test", "all", "gen", "tool", "b", "c", "unit_test", "tests", "a"]
-TAGS = ["t1", "t2", "t3"]
-PLATFORMS = ["linux/amd64", "linux/arm64", "darwin/arm64"]
+# semantic dictionary: sibling packages sharing a string prefix (a / ab, with sub-packages of their own), names equal to
+# keywords or ending in "test" (latest!), case variants, tags/platforms that are prefixes of each other
+PKGS = ["", "a", "a/b", "b", "ab", "a/b/c", "ab/c"]
+NAMES = ["lib", "app", "x_test", "test", "all", "gen", "tool", "b", "c", "unit_test", "tests", "a", "Test", "latest", "testx", "ab"]
+TAGS = ["t1", "t2", "t3", "t", "T1", "no-cache"]
+PLATFORMS = ["linux/amd64", "linux/arm64", "darwin/arm64", "linux/amd", "linux/amd64/v2"]
 TYPES = ["all", "test", "no_test", "bin_output"]
 
 
@@ -33,6 +35,14 @@ def gen_layered(rng, layers, width, fan=None):
                 es.append((l * width + i, (l + 1) * width + j))
     rng.shuffle(es)
     return layers * width, es
+
+
+def star(n, out=True):
+    """node 0 with n-1 dependants (out) or n-1 dependencies"""
+    return n, [((0, i) if out else (i, 0)) for i in range(1, n)]
+
+
+BOUNDARY_SIZES = [63, 64, 65, 127, 128, 129, 255, 256, 257, 1023, 1024, 1025]
 
 
 def ladder(depth):
@@ -167,12 +177,13 @@ def label_str(n):
 # ------------------------------------------------------------------------------------------------
 
 def gen_attr_graph(rng, n=None, alias_p=0.2, plat_p=0.25):
-    """nodes in topological order; aliases have exactly one dependency (their `actual`)."""
+    """nodes in topological order; aliases have exactly one dependency (their `actual`, possibly an alias or a test)."""
     n = rng.randint(2, 14) if n is None else n
     labels = [(p, nm) for p in PKGS for nm in NAMES]
     rng.shuffle(labels)
+    labels += [(PKGS[i % len(PKGS)], f"n{i}") for i in range(max(0, n - len(labels)))]     # large graphs
     nodes, es = [], []
-    density = rng.choice([0.15, 0.3, 0.6])
+    density = rng.choice([0.15, 0.3, 0.6]) if n <= 20 else rng.choice([2.0, 4.0]) / n
     for i in range(n):
         pkg, name = labels[i]
         is_alias = i > 0 and rng.random() < alias_p
@@ -180,7 +191,7 @@ def gen_attr_graph(rng, n=None, alias_p=0.2, plat_p=0.25):
         if is_alias:
             es.append((rng.randrange(i), i))
         else:
-            node["tags"] = [t for t in TAGS if rng.random() < 0.3]
+            node["tags"] = [t for t in TAGS if rng.random() < 0.2]
             if rng.random() < plat_p:
                 node["platforms"] = rng.sample(PLATFORMS, rng.randint(1, 2))
             node["bin"] = rng.random() < 0.2
@@ -227,8 +238,8 @@ def gen_select_req(rng, n=None):
     nodes, es = gen_attr_graph(rng, n)
     cur, pats = gen_patterns(rng, nodes)
     req = {"nodes": nodes, "edges": [list(e) for e in es], "cur": cur, "patterns": pats,
-           "tags": [t for t in TAGS if rng.random() < 0.15], "exclude": [t for t in TAGS if rng.random() < 0.15],
-           "type": rng.choice(TYPES + ["all", "no_test"]), "platform": rng.choice(PLATFORMS[:2]),
+           "tags": [t for t in TAGS if rng.random() < 0.08], "exclude": [t for t in TAGS if rng.random() < 0.08],
+           "type": rng.choice(TYPES + ["all", "no_test"]), "platform": rng.choice(PLATFORMS[:2] + PLATFORMS[:2] + PLATFORMS[3:]),
            "all_platforms": rng.random() < 0.2}
     order = list(range(len(nodes)))
     rng.shuffle(order)
